@@ -2238,7 +2238,14 @@ class Executor(object):
                     s.env.pop(n, None)
             for a in sorted(attrs):
                 base, _, field = a.rpartition('.')
-                bv = self.ev1_nospec(s, ast.parse(base, mode='eval').body)
+                try:
+                    bv = self.ev1_nospec(s.fork(), ast.parse(base, mode='eval').body)
+                except Unsupported:
+                    bv = None
+                if isinstance(bv, (VOpaque, VOpt)) or bv is None:
+                    # a mutating method call on an opaque object: its tracked fields are forgotten
+                    self.havoc_opaque_fields(s)
+                    continue
                 if not isinstance(bv, VObj):
                     raise Unsupported('loop modifies attribute of non-object %s' % a)
                 if bv.cls.startswith('$'):
